@@ -324,12 +324,16 @@ func TestVerifC13Log(t *testing.T) {
 	out := vOpen(t)
 	defer out.Close()
 	if tags, seeds, replay := c13ReplayCases("logs"); replay {
+		if c13TmplReplay() {
+			c13TmplLines(out)
+		}
 		for i := range tags {
 			c13RunLogs(out, tags[i], seeds[i], i)
 		}
 		return
 	}
 	seed, n := vSeed(), vN(3000)
+	c13TmplLines(out)
 	c13LogSens(out)
 	c13RunLogs(out, "wit-f18", 0, 0)
 	c13RunLogs(out, "wit-f32", 0, 0)
